@@ -157,6 +157,36 @@ def run(ctx):
             want = raw(T, df0[['x', 'y', 'z']].values)
             if np.abs(y[['x', 'y', 'z']].values - want).max() > tol(want) or not y['label'].equals(df0['label']) or not df.equals(df0):
                 ctx.violation('DataFrame: coordinates not moved as the raw array / other columns changed / input modified', desc)
+        # ---------------- voxel neurons: the image content lands where the transform sends its coordinates ----------------
+        if ci % 4 == 0:
+            g = np.zeros((16, 16, 16), dtype=np.float32)
+            lo3 = rng.integers(1, 10, size=3)
+            g[lo3[0]:lo3[0] + 3, lo3[1]:lo3[1] + 3, lo3[2]:lo3[2] + 3] = 5
+            vxn = navis.VoxelNeuron(g, units='1 nm', offset=rng.integers(-5, 6, size=3).astype(float))
+            sc_ = float(rng.choice([1, 2, 2, 0.5]))
+            Sv = tr.AffineTransform(hom(np.eye(3) * sc_, np.zeros(3)))
+            Tv = tr.AffineTransform(hom(np.eye(3), rng.integers(-30, 31, size=3).astype(float)))
+            order = int(rng.integers(3))
+            TV = [TransformSequence(Sv, Tv), TransformSequence(Tv, Sv), Tv][order]
+            dv = dict(kind='voxels', scale=sc_, offset=np.asarray(vxn.offset).tolist(), order=['scale-then-shift', 'shift-then-scale', 'shift'][order])
+            ctx.case(('voxels', str(lo3.tolist()), sc_, order, ci), nontrivial=True)
+            ctx.count('xform:voxels')
+            stv, yv = guarded(navis.xform, vxn, TV)
+            if stv != 'ok':
+                ctx.violation('xform(VoxelNeuron) raised', dv, yv)
+            else:
+                vox0 = np.argwhere(g > 2.5)
+                c0 = (vox0 * np.asarray(vxn.units_xyz.magnitude, dtype=float) + np.asarray(vxn.offset, dtype=float)).mean(axis=0)
+                wantc = raw(TV, c0.reshape(1, 3))[0]
+                vox1 = np.argwhere(np.asarray(yv.grid) > 2.5)
+                if len(vox1) == 0:
+                    ctx.violation('transformed voxel neuron lost its content', dv)
+                else:
+                    c1 = (vox1 * np.asarray(yv.units_xyz.magnitude, dtype=float) + np.asarray(yv.offset, dtype=float)).mean(axis=0)
+                    if np.abs(c1 - wantc).max() > 1.5 * float(np.max(np.asarray(yv.units_xyz.magnitude, dtype=float))):
+                        ctx.violation('voxel content does not land where the transform sends its coordinates', dv, dict(got=c1.tolist(), want=wantc.tolist()))
+                if not np.array_equal(np.asarray(vxn.grid), g):
+                    ctx.violation('xform modified its input', dv)
         # ---------------- mirroring ----------------
         axis = str(rng.choice(['x', 'y', 'z']))
         bb = np.sort(rng.integers(-30, 60, size=(3, 2)), axis=1).astype(float)
@@ -164,7 +194,10 @@ def run(ctx):
         tb = TemplateBrain(label='TB', name='TB', boundingbox=bb.flatten().tolist() if rng.random() < 0.5 else bb.tolist())
         ix = 'xyz'.index(axis)
         size = bb[ix].sum()
-        for obj_name, obj in (('skeleton', sk), ('mesh', me), ('dotprops-nok', dp0), ('points', ptsd)):
+        import trimesh as _tm
+        vol_ = navis.Volume(np.asarray(me.vertices, dtype=float).copy(), np.asarray(me.faces).copy(), name='vol')
+        tri_ = _tm.Trimesh(np.asarray(me.vertices, dtype=float).copy(), np.asarray(me.faces).copy(), process=False)
+        for obj_name, obj in (('skeleton', sk), ('mesh', me), ('dotprops-nok', dp0), ('points', ptsd), ('volume', vol_), ('trimesh', tri_)):
             st, m1 = guarded(navis.mirror_brain, obj, tb, mirror_axis=axis, warp=False)
             d = dict(kind=obj_name, mirror_axis=axis, boundingbox=bb.tolist())
             ctx.case(('mirror', obj_name, axis, str(bb.tolist()), ci), nontrivial=True)
@@ -181,8 +214,8 @@ def run(ctx):
                 ctx.violation('mirroring is not the reflection about the template\'s midplane', d, dict(got=c1[:2].tolist(), want=want[:2].tolist()))
             elif np.abs(c2 - c0).max() > 1e-9 * max(1, np.abs(c0).max()):
                 ctx.violation('mirroring twice (no warp) is not the identity', d)
-            if obj_name == 'mesh':
-                if not np.array_equal(m1.faces, me.faces[:, ::-1]) or not np.array_equal(m2.faces, me.faces):
+            if obj_name in ('mesh', 'volume', 'trimesh'):
+                if not np.array_equal(np.asarray(m1.faces), np.asarray(me.faces)[:, ::-1]) or not np.array_equal(np.asarray(m2.faces), np.asarray(me.faces)):
                     ctx.violation('mesh faces are not re-wound on mirroring', d)
             if obj_name == 'skeleton':
                 if not m1.nodes[['node_id', 'parent_id', 'extra']].equals(sk.nodes[['node_id', 'parent_id', 'extra']]):
